@@ -167,6 +167,11 @@ def run(ctx):
                     if g:
                         table[g[0][2][0]] = st.rv.ops[0].const_int()
         variants = [v["name"] for v in prog.adts["bourse_book::types::Status"]["variants"]]
+        if not table:
+            # `status as u8`: the numeric discriminant of each variant (explicit or implicit), read from the type definition
+            r = q.ret()
+            if r[0] == "cast" and r[2][0] == "discr" and r[2][1][0] == "param":
+                table = {v["name"]: int(v.get("discr", "-1")) for v in prog.adts["bourse_book::types::Status"]["variants"]}
         ctx.check(table == {v: i for i, v in enumerate(variants)}, "status", "u8-table", ctx.loc(conv[0]), "Status -> u8: %s" % table, "Status -> u8 table is %s" % table)
     else:
         ctx.lost("status", "From<Status> for u8 (found %d)" % len(conv))
